@@ -15,6 +15,11 @@ structure DS where
   tbl : Option (List Asg) := none
   /-- the current cdb was installed raw (corrupted / truncated copies) -/
   raw : Bool := false
+  /-- the last cdb qmail-newu compiled, and the independent reading of its source -/
+  lastCdb : Bytes := []
+  lastTbl : Option (List Asg) := none
+  /-- the current raw cdb is a prefix of `lastCdb` (a truncated copy): `C11_cdb_truncated`, `C11_truncated_defers` -/
+  trunc : Bool := false
   pwtext : Bytes := []
   /-- report() first bytes as observed on the implementation: code ↦ byte -/
   rbytes : List (Nat × Nat) := []
@@ -128,33 +133,40 @@ def oracleS (ds : DS) (flt : Fault) (sender recip : Bytes) (iout : Outcome) (iev
       let dom := recip.drop (j + 1)
       if loc.isEmpty then chk (iout == .exit 0 && noExec ievs) "null-recipient"
       else if flt == .cdbOpen || flt == .chdir then chk (noExec ievs && isExit) "db-error-not-deferred"
-      else if ds.raw then
-        -- a raw (corrupted/truncated) cdb: if reading it fails on the way to this address the delivery must be deferred
-        (match nughdeCdb ds.env.cdb loc with
-         | .exit _ => chk (noExec ievs && isExit) "db-error-not-deferred"
-         | _ => [])
       else
         -- what the tables say: none = unknown; some none = the lookup must fail
-        let viaPw : Option (Option Bytes) := match specGetpw ds.env.pw loc with
-          | .out b => some (some b)
-          | .exit _ => some none
-        let want : Option (Option Bytes) :=
-          match ds.env.cdb, ds.tbl with
-          | some _, some tb => (match specLookup tb loc with
-                               | some r => some (some r)
-                               | none => viaPw)
-          | none, _ => viaPw
-          | some _, none => none
-        match want with
-        | none => []
-        | some none => chk (noExec ievs && (match iout with | .exit c => c != 0 | _ => false)) "lookup-error-not-deferred"
-        | some (some r) =>
-          match parseNughde r with
-          | none => chk (noExec ievs) "exec-with-malformed-record"
-          | some id =>
-            chk (traceOk ds.env id loc dom sender [] ievs) "wrong-identity-or-argv" ++
-            (if id.uid == 0 then chk (noExec ievs && (flt != .none || iout == .exit QLX_ROOT)) "root-not-refused"
-             else if flt == .none then chk (iout == .exec) "assigned-user-not-run" else [])
+        let identity (tbl : Option (List Asg)) : List String :=
+          let viaPw : Option (Option Bytes) := match specGetpw ds.env.pw loc with
+            | .out b => some (some b)
+            | .exit _ => some none
+          let want : Option (Option Bytes) :=
+            match ds.env.cdb, tbl with
+            | some _, some tb => (match specLookup tb loc with
+                                 | some r => some (some r)
+                                 | none => viaPw)
+            | none, _ => viaPw
+            | some _, none => none
+          match want with
+          | none => []
+          | some none => chk (noExec ievs && (match iout with | .exit c => c != 0 | _ => false)) "lookup-error-not-deferred"
+          | some (some r) =>
+            match parseNughde r with
+            | none => chk (noExec ievs) "exec-with-malformed-record"
+            | some id =>
+              chk (traceOk ds.env id loc dom sender [] ievs) "wrong-identity-or-argv" ++
+              (if id.uid == 0 then chk (noExec ievs && (flt != .none || iout == .exit QLX_ROOT)) "root-not-refused"
+               else if flt == .none then chk (iout == .exec) "assigned-user-not-run" else [])
+        if ds.raw then
+          -- a raw (corrupted/truncated) cdb: if reading it fails on the way to this address the delivery must be deferred
+          (match nughdeCdb ds.env.cdb loc with
+           | .exit _ => chk (noExec ievs && isExit) "db-error-not-deferred"
+           | _ => []) ++
+          -- a TRUNCATED copy of a compiled cdb (`C11_truncated_defers`): deferred as a cdb error, or exactly what the
+          -- source table says — never another identity, never silently handed to qmail-getpw
+          (if ds.trunc && !loc.contains NUL then
+             (if noExec ievs && iout == .exit QLX_CDB then [] else (identity ds.lastTbl).map ("truncated-cdb:" ++ ·))
+           else [])
+        else identity ds.tbl
   g ++ e ++ t
 
 def handleS (ds : DS) (fltS senderH recipH oc codeS logS : String) : IO DS := do
@@ -231,17 +243,32 @@ def handle (ds : DS) (line : String) : IO DS := do
         ds ← ds.disagreeL (fun _ => s!"in={blob ds []} kind=newu assign={ah} impl={rcS} len={(match icdb with | some b => b.length | none => 0)} err={eh} model={ms}")
       -- oracle: the file is compiled iff the independent reading accepts it
       let sp := specParse a
-      ds := { ds with tbl := if rc == 0 then sp else none }
+      ds := { ds with tbl := if rc == 0 then sp else none, trunc := false,
+                      lastTbl := (if rc == 0 then sp else none), lastCdb := (match icdb with | some b => b | none => []) }
       if (rc == 0) != sp.isSome then
         ds ← ds.oracleFailL (fun _ => s!"in={blob ds []} kind=newu what={if rc == 0 then "malformed-table-compiled" else "valid-table-refused"} assign={ah} rc={rcS}")
+      -- `C11_newu_parse` on the implementation's output: the records in the compiled file, read back in file order by the
+      -- independent dump, are exactly the pairs of the declaratively parsed table (and the file is below the 4 GiB bound)
+      match icdb, sp with
+      | some ib, some t =>
+        ds := ds.bump "newu_dump_checked"
+        if !(ib.length < 4294967296 && cdbDump ib == some (pairsOf t)) then
+          ds ← ds.oracleFailL (fun _ => s!"in={blob ds []} kind=newu what=compiled-records-differ-from-declarative-table assign={ah} rc={rcS}")
+      | _, _ => pure ()
       return ds
     | _, _, _ => ds.disagree "unparsable N line"
   | ["C", ch] =>
     match (if ch == "x" then some none else (unhex ch).map some) with
-    | some c => return { ds.bump "raw_cdb" with env := { ds.env with cdb := c }, tbl := none, raw := ch != "x", assign := (if ch == "x" then [] else ds.assign),
+    | some c =>
+      let tr := match c with
+        | some b => ds.lastTbl.isSome && b.isPrefixOf ds.lastCdb
+        | none => false
+      let ds := (if tr then ds.bump "raw_cdb_truncated" else ds).bump "raw_cdb"
+      return { ds with env := { ds.env with cdb := c }, tbl := none, raw := ch != "x", trunc := tr, assign := (if ch == "x" then [] else ds.assign),
                                                 ctx := hashBytes (ds.pwtext ++ (match c with | some b => b | none => [])) }
     | none => ds.disagree "unparsable C line"
-  | ["K", kh, rS, dh] =>
+  | "K" :: kh :: rS :: dh :: posL =>
+    let ipos : Option Nat := match posL with | [p] => p.toNat? | _ => none
     match unhex kh, rS.toInt?, unhex dh, ds.env.cdb with
     | some k, some r, some d, some f =>
       let mut ds := ds.bump ("K_" ++ rS)
@@ -251,6 +278,12 @@ def handle (ds : DS) (line : String) : IO DS := do
       -- r = -1 (seek error) and r = -2 (data unreadable) are both "err" for nughde_get
       if impl != m then
         ds ← ds.disagreeL (fun _ => s!"in={blob ds []} kind=seek raw={ds.raw} key={kh} impl={rS} {dh} model={showLk m}")
+      -- the file position cdb_seek leaves for the data
+      match ipos, cdbSeek f k with
+      | some ip, .found dpos _ =>
+        if r == 1 && ip != dpos then
+          ds ← ds.disagreeL (fun _ => s!"in={blob ds []} kind=seekpos raw={ds.raw} key={kh} impl={ip} model={dpos}")
+      | _, _ => pure ()
       match ds.tbl with
       | some t =>
         let want := assocFind (pairsOf t) k
@@ -261,6 +294,23 @@ def handle (ds : DS) (line : String) : IO DS := do
         if !ok then
           ds ← ds.oracleFailL (fun _ => s!"in={blob ds []} kind=cdb what=compiled-table-differs-from-source key={kh} impl={rS} {dh} source={repr want}")
       | none => pure ()
+      -- any file, in particular the corrupted ones (`C11_cdb_hit_sound`): a hit must be a real record of that key
+      match ipos with
+      | some ip =>
+        if r == 1 && (ds.raw || ds.st.cases % 8 == 0) then
+          ds := ds.bump "K_hit_backed_checked"
+          if !hitBacked f k d ip then
+            ds ← ds.oracleFailL (fun _ => s!"in={blob ds []} kind=cdb what=hit-not-backed-by-a-record raw={ds.raw} key={kh} impl={rS} {dh} pos={ip} cdb={hex f}")
+      | none => pure ()
+      -- a truncated copy of a compiled file (`C11_cdb_truncated`): a read error, or what the source says
+      if ds.trunc then
+        match ds.lastTbl with
+        | some t =>
+          ds := ds.bump "K_truncated_checked"
+          let ok := impl == .err || (match assocFind (pairsOf t) k with | some w => impl == .found w | none => impl == .notFound)
+          if !ok then
+            ds ← ds.oracleFailL (fun _ => s!"in={blob ds []} kind=cdb what=truncated-cdb-wrong-answer key={kh} impl={rS} {dh} source={repr (assocFind (pairsOf t) k)} cdb={hex f}")
+        | none => pure ()
       return ds
     | _, _, _, _ => ds.disagree "unparsable K line"
   | ["G", lh, rcS, oh] =>
